@@ -4,6 +4,7 @@ package main
 
 import (
 	"fmt"
+	"os"
 	"go/constant"
 	"go/token"
 	"go/types"
@@ -14,6 +15,8 @@ import (
 )
 
 type Obligation struct {
+	AKey    string // identifies the assumption set (obligations emitted from the same state share it)
+	At      string // source position of the site
 	Func    string
 	Name    string // kind[label]@site
 	Kind    string
@@ -43,6 +46,7 @@ type Explorer struct {
 	paths   int
 	errs    []string
 	inlined map[string]int
+	forkCount map[string]int
 }
 
 type engineError struct{ msg string }
@@ -55,6 +59,26 @@ func (x *Explorer) emit(st *State, kind, label, site string, goal *Term, where s
 	if st.dry || st.dead {
 		return
 	}
+	at := ""
+	if len(st.frames) > 0 {
+		f := st.frames[0]
+		if f.pc < len(f.block.Instrs) {
+			at = x.eng.posStr(f.block.Instrs[f.pc].Pos())
+			if at == "?" {
+				for i := f.pc; i >= 0; i-- {
+					if p := f.block.Instrs[i].Pos(); p.IsValid() {
+						at = x.eng.posStr(p)
+						break
+					}
+				}
+			}
+		}
+	}
+	defer func() {
+		if n := len(x.obls); n > 0 && x.obls[n-1].At == "" {
+			x.obls[n-1].At = at
+		}
+	}()
 	name := kind + "[" + label + "]"
 	if site != "" {
 		name += "@" + site
@@ -69,7 +93,7 @@ func (x *Explorer) emit(st *State, kind, label, site string, goal *Term, where s
 	as = append(as, st.facts...)
 	as = append(as, st.pc...)
 	x.obls = append(x.obls, &Obligation{Func: x.fnKey, Name: name, Kind: kind, Label: label, Where: where, Assume: as, Goal: goal,
-		Trail: strings.Join(st.trail, ";"), Skolems: st.skolems})
+		Trail: strings.Join(st.trail, ";"), Skolems: st.skolems, AKey: st.assumeKey()})
 }
 
 // check is an implicit run-time check: obligation under nopanic, assumption otherwise.
@@ -88,6 +112,9 @@ func (x *Explorer) runAll() {
 		st := x.work[len(x.work)-1]
 		x.work = x.work[:len(x.work)-1]
 		x.paths++
+		if x.eng.verbose && x.paths%500 == 0 {
+			fmt.Fprintf(os.Stderr, "  .. %s: %d paths, %d obligations, %d pending\n", x.fnKey, x.paths, len(x.obls), len(x.work))
+		}
 		if x.paths > x.eng.maxPaths {
 			x.fail("path cap %d exceeded in %s", x.eng.maxPaths, x.fnKey)
 		}
@@ -331,12 +358,15 @@ func (x *Explorer) step(st *State) {
 		case c.IsFalse():
 			x.jump(st, f, fb)
 		default:
+			if x.eng.verbose {
+				x.forkCount[fmt.Sprintf("%s %s", f.fn.Name(), x.eng.posStr(i.Cond.Pos()))]++
+			}
 			n := x.fork(st)
 			n.assume(Not(c))
-			n.trail = append(n.trail, fmt.Sprintf("%s:%d-", f.name, f.block.Index))
+			n.trail = append(n.trail, x.branchTag(f, i, false))
 			x.jump(n, n.top(), fb)
 			st.assume(c)
-			st.trail = append(st.trail, fmt.Sprintf("%s:%d+", f.name, f.block.Index))
+			st.trail = append(st.trail, x.branchTag(f, i, true))
 			x.jump(st, f, tb)
 		}
 	case *ssa.Jump:
@@ -437,6 +467,19 @@ func (x *Explorer) jump(st *State, f *Frame, to *ssa.BasicBlock) {
 	for h, al := range f.loops {
 		if al.info.Body[from] && !al.info.Body[to] {
 			delete(f.loops, h)
+			if f.contract != nil && len(st.frames) == 1 {
+				if cls := f.contract.LoopAfter[al.info.Ord]; len(cls) > 0 {
+					env := x.specEnv(st, f, f.contract)
+					for _, cl := range cls {
+						if !st.dry {
+							env.goal = true
+							x.emit(st, "after-loop", cl.Label, fmt.Sprintf("loop#%d", al.info.Ord), env.evalBool(cl.Expr), cl.Where)
+						}
+						env.goal = false
+						st.assume(env.evalBool(cl.Expr))
+					}
+				}
+			}
 		}
 	}
 	f.prev = from
@@ -1210,4 +1253,27 @@ func (x *Explorer) doSelect(st *State, f *Frame, s *ssa.Select) {
 		cf.env[s] = VTuple{E: vals}
 		cf.pc++
 	}
+}
+
+// branchTag names a branch decision by the source line of its condition.
+func (x *Explorer) branchTag(f *Frame, i *ssa.If, taken bool) string {
+	p := i.Cond.Pos()
+	if !p.IsValid() {
+		for k := len(f.block.Instrs) - 1; k >= 0 && !p.IsValid(); k-- {
+			p = f.block.Instrs[k].Pos()
+		}
+	}
+	line := 0
+	if p.IsValid() {
+		line = x.eng.fset.Position(p).Line
+	}
+	sign := "F"
+	if taken {
+		sign = "T"
+	}
+	pre := ""
+	if f.name != "" {
+		pre = f.fn.Name() + ":"
+	}
+	return fmt.Sprintf("%sL%d%s", pre, line, sign)
 }
